@@ -113,6 +113,13 @@ pub fn c02(r: &mut Rng, t: u32, n: usize) -> Vec<Value> {
                 let (xc, yc) = sign2(r, xc, yc);
                 v.push(bin(t, op, dj(xc, p as u8), "dec", dj(yc, q as u8), "dec", 0, r.below(4)));
             }
+            6 => {
+                // structured operands 2^i 5^j m: products and quotients with zero limbs, results beyond i128
+                let (p, q) = (r.below(19) as u8, r.below(19) as u8);
+                let (pa, pb) = (pow25(r), pow25(r));
+                let (xc, yc) = sign2(r, pa, pb);
+                v.push(bin(t, op, dj(xc, p), "dec", dj(yc, q), "dec", 0, r.below(4)));
+            }
             5 => {
                 // compound assignment history
                 let (c, f) = decimal(r);
@@ -172,6 +179,12 @@ pub fn c03(r: &mut Rng, t: u32, n: usize) -> Vec<Value> {
                 let (xc, yc) = sign2(r, clampc2(xc), yc);
                 v.push(bin(t, op, dj(xc, p as u8), "dec", dj(yc, q as u8), "dec", 0, r.below(4)));
             }
+            7 => {
+                let (p, q) = (r.below(19) as u8, r.below(19) as u8);
+                let (pa, pb) = (pow25(r), pow25(r));
+                let (xc, yc) = sign2(r, pa, pb);
+                v.push(bin(t, op, dj(xc, p), "dec", dj(yc, q), "dec", 0, r.below(4)));
+            }
             6 => {
                 // floor quotient = i128::MAX with a non-zero remainder: rounding up must signal overflow
                 let (x, y, k) = max_quotient_construct(r);
@@ -211,7 +224,7 @@ pub fn c04(r: &mut Rng, t: u32, n: usize) -> Vec<Value> {
     let mut v = vec![];
     while v.len() < n {
         maybe_set(r, t, &mut v, 4);
-        match r.below(13) {
+        match r.below(14) {
             0 | 1 | 2 => {
                 let nn = r.below(19) as u32;
                 if let Some((x, p, y, q)) = div_case(r, nn) {
@@ -232,6 +245,13 @@ pub fn c04(r: &mut Rng, t: u32, n: usize) -> Vec<Value> {
                 let xc = base + match r.below(3) { 0 => 0, 1 => 1, _ => yc - 1 };
                 let (xc, yc) = sign2(r, xc, yc);
                 v.push(bin(t, "div_rounded", dj(xc, p as u8), "dec", dj(yc, q as u8), "dec", nn as i64, r.below(4)));
+            }
+            12 => {
+                let (p, q) = (r.below(19) as u8, r.below(19) as u8);
+                let (pa, pb) = (pow25(r), pow25(r));
+                let (xc, yc) = sign2(r, pa, pb);
+                let op = if r.bool() { "div_rounded" } else { "mul_rounded" };
+                v.push(bin(t, op, dj(xc, p), "dec", dj(yc, q), "dec", r.below(19) as i64, r.below(4)));
             }
             11 => {
                 let (x, y, k) = max_quotient_construct(r);
@@ -301,7 +321,19 @@ pub fn c05(r: &mut Rng, t: u32, n: usize) -> Vec<Value> {
     while v.len() < n {
         maybe_set(r, t, &mut v, 4);
         let op = if r.below(3) == 0 { "checked_round" } else { "round" };
-        match r.below(9) {
+        match r.below(10) {
+            9 => {
+                // every remainder class at every shift 1..38: coefficient = head * 10^s + {0, 1, half-1, half, half+1, 10^s-1}
+                let sh = 1 + r.below(38) as u32;
+                let f = r.below(19) as i64;
+                let unit = p10(sh);
+                let hmax = MAXC / unit - 1;
+                let head = if hmax <= 0 { 0 } else { match r.below(3) { 0 => r.below(3) as i128, 1 => hmax - r.below(2) as i128, _ => ((r.u128() >> 1) as i128) % (hmax + 1) } };
+                let half = unit / 2;
+                let rem = match r.below(6) { 0 => 0, 1 => 1, 2 => half - 1, 3 => half, 4 => half + 1, _ => unit - 1 };
+                let c = neg1!(r, (head * unit).saturating_add(rem).min(MAXC));
+                v.push(json!({"ev": "un", "t": t, "op": op, "x": dj(c, f as u8), "n": f - sh as i64}));
+            }
             8 => {
                 // shift back at the i128 boundary: integral value within one rounding unit of MAX, negative n
                 let k = 1 + r.below(6) as u32;
@@ -550,6 +582,17 @@ pub fn c06(r: &mut Rng, t: u32, n: usize) -> Vec<Value> {
                 if !s.contains('e') { s.push(if r.bool() { 'e' } else { 'E' }); match r.below(3) { 0 => s.push('+'), 1 => s.push('-'), _ => {} } for _ in 0..r.below(5) { { let b = if r.bool() { 10 } else { 2 }; s.push((b'0' + r.below(b) as u8) as char); } } }
                 s
             }
+            8 if r.bool() => {
+                // long fraction compensated by a long exponent: value = digits * 10^(e - z - len)
+                let z = if r.bool() { r.below(130) } else { 130 + r.below(1100) };
+                let mut s = String::from(if r.bool() { "0." } else { "-." });
+                for _ in 0..z { s.push('0'); }
+                let nd = 1 + r.below(4);
+                for _ in 0..nd { s.push((b'1' + r.below(9) as u8) as char); }
+                let e = z as i64 + nd as i64 + r.range(-19, 38);
+                s.push_str(&format!("{}{}", if r.bool() { "e" } else { "E+" }, e.max(0)));
+                s
+            }
             8 => {
                 // fraction with leading zeros against the digit limits
                 let z = r.below(45);
@@ -772,6 +815,20 @@ pub fn c16(r: &mut Rng, t: u32, n: usize) -> Vec<Value> {
             6 => MAXC - r.below(10) as i128,
             _ => ((r.u128() >> (1 + r.below(126))) as i128).max(1),
         };
+        if r.below(5) == 0 {
+            // structured 2^i 5^j m operands and divisors: sparse quotient digits, exact wide divisions
+            let (pa, pb) = (pow25(r), pow25(r));
+            let (a, b) = sign2(r, pa, pb);
+            let k = r.below(39) as u32;
+            let mm = if r.bool() { pow25(r) } else { p10(k) };
+            match r.below(4) {
+                0 => v.push(json!({"ev": "wide", "t": t, "op": "i256_div_mod_floor", "a": num(a), "b": num(b), "k": 0, "m": num(mm), "mode": mode})),
+                1 => v.push(json!({"ev": "wide", "t": t, "op": "i128_mul_div_ten_pow_rounded", "a": num(a), "b": num(b), "k": k, "m": num(1), "mode": mode})),
+                2 => v.push(json!({"ev": "wide", "t": t, "op": "i128_shifted_div_mod_floor", "a": num(a), "b": num(0), "k": k, "m": num(b.abs().max(1)), "mode": mode})),
+                _ => v.push(json!({"ev": "wide", "t": t, "op": "i128_shifted_div_rounded", "a": num(a), "b": num(0), "k": k, "m": num(b.abs().max(1)), "mode": mode})),
+            }
+            continue;
+        }
         match r.below(4) {
             0 | 1 => {
                 // a*b / m
